@@ -10,6 +10,7 @@ Engines
 """
 from __future__ import annotations
 
+import contextlib
 import io
 import os
 import re
@@ -762,6 +763,91 @@ def lazy_vs_dbase(run) -> None:
     F._ENGINE_DB = None
 
 
+def extra_database(run) -> None:
+    """An additional binary database registered on top of the bundled one (add_engine_database, "can override the existing
+    entities"): looking classes up one at a time and loading everything at once still agree, for the overridden classes,
+    for the classes only the bundled database has, and whatever the order of the look-ups."""
+    import tempfile
+    from pathlib import Path
+    from srctools import fgd as F
+    from srctools import _engine_db as E
+    rng = sub_rng(run.seed, 'extra-db', 0)
+    F._ENGINE_DB = None
+    full = F.FGD.engine_dbase()
+    small = F.FGD()
+    names = sorted(k for k, e in full.entities.items() if k != '_cbaseentity_')
+    chosen = rng.sample(names, 150)
+
+    def take(ent: Any) -> None:
+        if ent.classname.casefold() in small.entities:
+            return
+        small.entities[ent.classname.casefold()] = ent
+        for b in ent.bases:
+            if not isinstance(b, str):
+                take(b)
+    take(full['_CBaseEntity_'])
+    for nm in chosen:
+        take(full.entities[nm])
+    changed = [nm for nm in chosen if not getattr(small.entities[nm], 'is_alias', False)][:12]
+    for j, nm in enumerate(changed):
+        ent = small.entities[nm]
+        ent.keyvalues[f'rv_marker_{j}'] = {frozenset(): F.KVDef(f'rv_marker_{j}', F.ValueTypes.INT, 'Marker', str(40 + j))}
+        if j % 3 == 0:
+            for key in [k for k in ent.keyvalues if not k.startswith('rv_marker')][:1]:
+                del ent.keyvalues[key]
+    fd, fname = tempfile.mkstemp(prefix='rv-c16-', suffix='.lzma')
+    try:
+        with os.fdopen(fd, 'wb') as f, contextlib.redirect_stdout(io.StringIO()):
+            E.serialise(small, f)
+        F._ENGINE_DB = None
+        F.add_engine_database(Path(fname))
+    except Exception:
+        os.unlink(fname)
+        F._ENGINE_DB = None
+        raise   # building the extra database is the harness's own business: inconclusive, not a verdict
+    try:
+        os.unlink(fname)
+        classes = sorted(F.EntityDef.engine_classes())
+        order = list(classes)
+        rng.shuffle(order)
+        if run.tier != 'thorough':
+            order = sorted(set(order[:250]) | set(changed))
+            rng.shuffle(order)
+        singles = {}
+        for nm in order[:len(order) // 2]:     # half of the single look-ups come before the full load ...
+            singles[nm] = deep_snap(F.EntityDef.engine_def(nm), {})   # (no shared memo: it is keyed by id() of short-lived copies)
+        whole = F.FGD.engine_dbase()
+        for nm in order[len(order) // 2:]:     # ... and half after it
+            singles[nm] = deep_snap(F.EntityDef.engine_def(nm), {})
+        if {c.casefold() for c in classes} != set(whole.entities):
+            odd = sorted({c.casefold() for c in classes} ^ set(whole.entities))
+            run.violation(f'engine_classes() and engine_dbase() disagree on the classes once a second database is registered: {odd[:6]}',
+                          case={'engine': 'extra-db'}, engine='lazy', key='extra-database-class-set')
+        wmemo: Dict[int, Any] = {}
+        for nm in order:
+            ent = whole.entities.get(nm.casefold())
+            if ent is None:
+                continue
+            d = G.first_diff(deep_snap(ent, wmemo), singles[nm])
+            run.count('classes_compared_with_an_extra_database')
+            if d is not None:
+                run.violation(f'with a second database registered, engine_def({nm!r}) and engine_dbase()[{nm!r}] differ at {d[0]}: '
+                              f'{_clip(d[1])!r} / {_clip(d[2])!r}', witness={'diff': _clip(d, 600), 'overridden': nm in changed},
+                              case={'engine': 'extra-db'}, engine='lazy', key='extra-database-lookup-differs')
+                break
+        for j, nm in enumerate(changed):
+            one = F.EntityDef.engine_def(nm)
+            both = (f'rv_marker_{j}' in one.keyvalues, f'rv_marker_{j}' in whole.entities[nm].keyvalues)
+            run.count('overriding_definitions_checked')
+            if both != (True, True):
+                run.violation(f'the definition of {nm!r} from the added database is not the one handed out: '
+                              f'(engine_def, engine_dbase) see the override = {both}', case={'engine': 'extra-db'}, engine='lazy',
+                              key='extra-database-override-ignored')
+                break
+    finally:
+        F._ENGINE_DB = None
+
+
 # ------------------------------------------------------------------------------------------ fixed corner cases
 def fixed_fgds() -> List[Tuple[str, Any, bool]]:
     """Small deterministic definitions for the corners named in the property (run in every tier)."""
@@ -856,7 +942,7 @@ def make_probe() -> ReachProbe:
 JOB_ENGINES = [('dbase', {'custom_syntax': True, 'label_spawnflags': True}), ('binary-dbase', {}),
                ('dbase', {'custom_syntax': False, 'label_spawnflags': True}), ('lazy-dbase', {}),
                ('dbase', {'custom_syntax': True, 'label_spawnflags': False}),
-               ('dbase', {'custom_syntax': False, 'label_spawnflags': False})]
+               ('dbase', {'custom_syntax': False, 'label_spawnflags': False}), ('extra-db', {})]
 
 
 def main(run, shard=(0, 1)) -> None:
@@ -874,6 +960,7 @@ def main(run, shard=(0, 1)) -> None:
         lambda: (lazy_vs_dbase(run), check_decay_table(run)),
         lambda: dbase_case(run, True, False),
         lambda: dbase_case(run, False, False),
+        lambda: extra_database(run),
     ]
     for j, job in enumerate(jobs):
         if mine(j, shard):
@@ -897,7 +984,8 @@ def main(run, shard=(0, 1)) -> None:
     run.require(*['reach:' + label_ for label_ in probe.counts])
     run.require('spawnflag_names_with_leading_blanks', 'exports', 'parses', 'file_form_exports', 'fgd_level_sections_compared', 'visgroup_trees_checked_against_export', 'engine_db_shape_checks', 'returned_definitions_edited', 'lazy_queries_after_a_full_load', 'serialise_twice', 'tagged_member_refused', 'entities_compared', 'second_exports', 'serialise_calls', 'unserialise_calls',
                 'lazy_queries', 'dbase_roundtrips', 'binary_dbase_roundtrips', 'long_strings', 'empty_display_names',
-                'tagged_duplicate_keys', 'aliases', 'texts_with_plus_split', 'binary_entities_compared')
+                'tagged_duplicate_keys', 'aliases', 'texts_with_plus_split', 'binary_entities_compared', 'classes_compared_with_an_extra_database',
+                'overriding_definitions_checked')
 
 
 def replay(run, data) -> None:
@@ -942,4 +1030,4 @@ def replay(run, data) -> None:
 
 
 # (kept at the end of the file so that the text above stays the description the check was first built to)
-RULE += ' ' + 'Later additions: the visgroup tree of the FGD given to export() is preserved by it; every entity of the bundled database reaches _CBaseEntity_; definitions returned by engine_def() are edited (everything mutable, bases included) and looked up again. The text of every round trip is read a second time after everything the first read returned was edited; both reads give the same definitions.'
+RULE += ' ' + 'Later additions: the visgroup tree of the FGD given to export() is preserved by it; every entity of the bundled database reaches _CBaseEntity_; definitions returned by engine_def() are edited (everything mutable, bases included) and looked up again. The text of every round trip is read a second time after everything the first read returned was edited; both reads give the same definitions. A second binary database (150 sampled classes with their bases, twelve of them changed) is registered with add_engine_database: single look-ups made before and after a full load agree with the full load for overridden and bundled-only classes, and both hand out the overriding definition.'
